@@ -52,6 +52,9 @@ structure ReplyIn where
   resp : Resp
   delay : Int
   bodyFail : Int
+  /-- the body ended (a clean end, no error) before the length the reply declares: what the upstream delivered is
+      `resp.body`, which is shorter than its Content-Length says -/
+  short : Bool := false
   deriving Repr
 
 structure LocIn where
@@ -183,7 +186,8 @@ def parseLine (h : Hist) (line : String) : Hist :=
     { h with reqs := h.reqs ++ [ri] }
   | ["I", "REPLY", n, k, kind, status, hdrs, body, delay, bf] =>
     let rp : Resp := { status := toNat status, header := parseHdrs hdrs, body := unhex body }
-    let ri : ReplyIn := { n := toNat n, k := toNat k, kind := kind, resp := rp, delay := toInt delay, bodyFail := toInt bf }
+    let ri : ReplyIn := { n := toNat n, k := toNat k, kind := (if kind == "resp-short" then "resp" else kind), resp := rp, delay := toInt delay,
+                          bodyFail := toInt bf, short := (kind == "resp-short") }
     { h with replies := h.replies ++ [ri] }
   | ["I", "LOC", n, k, hdr, ok, scheme, host, _ok2, ks, kh, kp, kq, ko, fq] =>
     let g : LocGlue := { scheme := unhex scheme, host := unhex host, kScheme := unhex ks, kHost := unhex kh, kPath := unhex kp, kQuery := unhex kq, kOpaq := unhex ko, kForceQuery := (fq == "1") }
